@@ -32,6 +32,11 @@ configured writable parameter (writeInitParams).  The horizon of an execution is
 Configurations with 'delivery': 'ops' add two more *delivery points* for an external event, at the poll thread's own
 operations on its trigger event: right before wait() looks at the flag (between the computation of the wait time and the
 sleep) and right before clear() - the places where a wake-up can be lost; events only, <= 2 deviations.
+'Failure classes' configurations ('devs': 'classes') make the failure CLASS a dimension: a driver call may raise every SECoP
+error class registered in the tree under test (SECoPError.name2class / clsname2class enumerated at run time, each also as
+a silent instance) and 13 builtin exception classes, at every site (doPoll, read_* through the generated wrapper,
+ReadHandler, CommonReadHandler, initialReads, write_* in writeInitParams); the class only matters where the exception is
+handled, so <= 1 deviation, duration 0, wake-ups are no deviation points.
 'pollcfg': 'default' configurations (about half) take the poll interval from the *class default* instead of a configured
 value: a configured pollinterval goes through writeInitParams -> update_interval -> trigger() and sets the trigger event
 before the main loop, a class default does not.  'hfactor' lengthens the horizon (default 3 x largest interval) for the
@@ -158,7 +163,7 @@ class Run:
         self.spun = False
         self.escaped_injected = False
         self.ops_delivery = cfg.get('delivery') == 'ops'
-        self.answers = call_answers(cfg.get('base', 'idle'))
+        self.answers = class_answers() if cfg.get('devs') == 'classes' else call_answers(cfg.get('base', 'idle'))
 
     # --- clock
     def time(self):
@@ -220,6 +225,8 @@ class Run:
         t0 = self.t
         timeout = 999 if timeout is None else timeout
         nev = len(self.event_alphabet)
+        if self.cfg.get('devs') == 'classes':        # failure-class configurations: wake-ups are no deviation points
+            nev = 1
         # delivery points of an external event: while the thread sleeps (after a quarter of the sleep), or - in
         # configurations with 'delivery': 'ops' - right before the wait looks at the flag, i.e. between the computation of
         # the wait time and the sleep (answers nev .. 2 nev - 2)
@@ -314,7 +321,48 @@ def make_error(out):
             silent = True
         _errors.update(err=HardwareError, silent=SilentHardwareError, comfail=CommunicationFailedError,
                        valueerror=ValueError)
-    return _errors[out]('fake failure')
+    if out in _errors:
+        return _errors[out]('fake failure')
+    name, _, flag = out.partition('/')         # failure-class catalogue: '<class name>[/silent]'
+    exc = failure_classes()[name]('fake failure')
+    if flag == 'silent':
+        exc.silent = True
+    return exc
+
+
+BUILTIN_FAILURES = (ValueError, TypeError, KeyError, IndexError, AttributeError, ZeroDivisionError, OSError, TimeoutError,
+                    NotImplementedError, RuntimeError, AssertionError, StopIteration, Exception)
+_failure_classes = {}
+
+
+def failure_classes():
+    """name -> class of every exception class a driver can raise: every SECoP error class registered in the tree under
+    test (SECoPError.name2class and clsname2class, enumerated at run time - classes a change adds are covered, too),
+    SECoPError itself, and a list of builtin exceptions"""
+    if not _failure_classes:
+        make_error('err')            # registers the harness' own silent class first (deterministic catalogue)
+        from frappy.errors import SECoPError
+        for c in [SECoPError] + list(SECoPError.name2class.values()) + list(SECoPError.clsname2class.values()):
+            _failure_classes[c.__name__] = c
+        for c in BUILTIN_FAILURES:
+            _failure_classes.setdefault(c.__name__, c)
+    return _failure_classes
+
+
+def class_answers():
+    """answers of a driver call in a 'failure classes' configuration: ok, then every class (duration 0), SECoP classes
+    that are not silent by themselves also as a silent instance"""
+    if not _class_answers:
+        from frappy.errors import SECoPError
+        _class_answers.append((0, 'ok'))
+        for name, c in sorted(failure_classes().items()):
+            _class_answers.append((0, name))
+            if issubclass(c, SECoPError) and not c.silent:
+                _class_answers.append((0, name + '/silent'))
+    return _class_answers
+
+
+_class_answers = []
 
 
 # ---------------------------------------------------------------------------------------------
@@ -610,10 +658,14 @@ def judge(world, run):
     if kind == 'exception':
         died = True
         last_out = calls[-1][5] if calls else 'ok'
+        classes_mode = run.cfg.get('devs') == 'classes'
         if run.escaped_injected and last_out != 'ok':
-            cat = {'valueerror': 'non-SECoPError', 'comfail': 'CommunicationFailedError'}.get(last_out, 'SECoPError')
+            cat = last_out if classes_mode else \
+                {'valueerror': 'non-SECoPError', 'comfail': 'CommunicationFailedError'}.get(last_out, 'SECoPError')
         else:
             cat = f'not-injected-{exc}'          # the poll code itself raised
+            if classes_mode and last_out != 'ok':
+                cat += f'-while-handling-{last_out}'
         res.append((f'C13:thread:killed-by-exception:in={FNKIND.get(where, where)}:{cat}',
                     f'{exc} left the poll thread body after the call of {where} at t={rel(run, t_end)}'))
     elif kind == 'returned':
@@ -777,6 +829,10 @@ def configs(tier):
     add('io+A+B', [(1, 2)])
     add('IO+S', [(0, 2), (1, 2)], base='busy')
     add('io+S+T', [(1, 2)], base='busy', pollcfg='default')
+    # the failure CLASS as a dimension: every exception class a driver can raise (all SECoP error classes of the tree under
+    # test, silent and not, + builtins) x every site (doPoll, read_* through the wrapper, ReadHandler, CommonReadHandler,
+    # initialReads, write_* in writeInitParams); the class only matters where the exception is handled: <= 1 deviation
+    add('io+A+B', [(1, 2)], devs='classes', bound=1)
     # saturated thread whose first module has several slow parameters: its slow sweep (3 reads of 0.3 x slowinterval plus
     # the main polls of every turn) takes longer than its slowinterval, so it is due again whenever a sweep ends; the
     # horizon is 8 x the largest interval so that a parameter of the second module can be overdue for several sweeps
@@ -803,6 +859,7 @@ def configs(tier):
         add('io+A+B', [(0.1, 2), (5, 2)])
         add('io+S+T+U', [(1, 2)], pollcfg='default')
         add('io+B+S', [(1, 0.1), (1, 2)], base='busy', hfactor=8)
+        add('IO+A', [(5, 2)], devs='classes', bound=1, pollcfg='default')
         add('io+S+T+U', [(0.1, 0.1), (1, 2), (5, 15)])
         add('io+A+S+T', [(5, 2), (1, 2), (0.1, 2)])
         add('io+S+T+U+V', [(1, 2)])
